@@ -362,6 +362,16 @@ def check(run):
             return
     for k in range(32 if run.quick else 400):
         get_field_case(run, ps, rng, k)
+    # "additive over particles" under threads rests on concurrently painted stripes never sharing a cell: for anisotropic grids
+    # partitioned along y or z this is decided deterministically by the region recorder of C07 (a handful of configurations here;
+    # the sweep over all of them is C07's)
+    from .. import mas as _mas
+    from . import c07 as _c07
+
+    with _mas.TscRaceMonitor(tsc) as mon:
+        for k in range(10 if run.quick else 120):
+            _c07.run_config(run, tsc, mon, rng, [16, 24, 32, 48, 20][k % 5], [2, 4, 8, 16][k % 4], None, 1 + k % 2, bool(k % 2), [0.0, 0.5, -0.75][k % 3], [1.0, 500.0][k % 2], [np.float32, np.float64][k % 2], bool(k % 3), long_x=bool(k % 2))
+            run.count('partition_axis_configs_under_region_recorder')
     run.sample(dict(kernel='cic', family='dyadic', shape=[8, 16, 4], box=64.0, exact=True))
 
 
